@@ -106,6 +106,11 @@ LEAVES = {
     "kappa_a": (_pos(1, 1.0, 4.0), [1.5]),                  # replaced by kappa_b after construction
     "kappa_b": (_pos(1, 1.0, 4.0), [2.5]),
     "hky2_freqs": (_simplex(4), [0.3, 0.2, 0.2, 0.3]),
+    # parameters consumed by several structurally identical / VALUE-EQUAL consumers (duplicate wrappers)
+    "dup_a": (_real(2), [0.4, -0.1]),
+    "dup_b": (_real(1), [0.7]),
+    "dup_c": (_real(2), [-0.3, 0.2]),
+    "dup_d": (_real(1), [0.5]),
     # further model classes
     "theta_e": (_pos(1, 1.0, 10.0), [5.0]),
     "growth": (_real(1, -0.5, 0.5), [0.1]),
@@ -130,6 +135,10 @@ def _tensor(lid, v):
 
 
 VIEWS = ["v_neg_int", "v_neg_slice", "v_long", "v_head", "v_bool", "v_first"]
+
+def _num(i, v):
+    return {"id": i, "type": "Parameter", "tensor": [v], "dtype": "torch.float64"}
+
 
 GRADS = {}  # leaf id -> True for the leaves built with requires_grad (set by `build`)
 
@@ -252,6 +261,44 @@ def spec(values: dict, with_mg94_like: bool = True):
         {"id": "ctmc", "type": "CTMCScale", "x": "ctmc_rate", "tree_model": "ttree2"},
         {"id": "joint_in", "type": "JointDistributionModel", "distributions": ["mvn", "bridge", "coal_e"]},
         {"id": "joint_out", "type": "JointDistributionModel", "distributions": ["joint_in", "ctmc", "like_jc", "coal2"]},
+        # ---------------- value-equal duplicate consumers of the same plain parameters.  A Distribution given a list
+        # x wraps it in CatParameter('x', ...), TransformedParameter in CatParameter(None, ...): every such wrapper
+        # compares EQUAL (==) to its twins, and a wrapper of a prefix list equals the longer one (zip).  Both
+        # build orders: prefix first (a / a,b) and longer first (c,d / c).
+        {"id": "dupA_pre", "type": "Distribution", "distribution": "torch.distributions.Normal", "x": ["dup_a"],
+         "parameters": {"loc": _num("dupA_pre.loc", 0.0), "scale": _num("dupA_pre.scale", 1.0)}},
+        {"id": "dupA_1", "type": "Distribution", "distribution": "torch.distributions.Normal", "x": ["dup_a", "dup_b"],
+         "parameters": {"loc": _num("dupA_1.loc", 0.0), "scale": _num("dupA_1.scale", 1.0)}},
+        {"id": "dupA_2", "type": "Distribution", "distribution": "torch.distributions.Normal", "x": ["dup_a", "dup_b"],
+         "parameters": {"loc": _num("dupA_2.loc", 0.5), "scale": _num("dupA_2.scale", 2.0)}},
+        {"id": "dupC_1", "type": "Distribution", "distribution": "torch.distributions.Normal", "x": ["dup_c", "dup_d"],
+         "parameters": {"loc": _num("dupC_1.loc", 0.0), "scale": _num("dupC_1.scale", 1.0)}},
+        {"id": "dupC_2", "type": "Distribution", "distribution": "torch.distributions.Normal", "x": ["dup_c", "dup_d"],
+         "parameters": {"loc": _num("dupC_2.loc", 0.5), "scale": _num("dupC_2.scale", 2.0)}},
+        {"id": "dupC_pre", "type": "Distribution", "distribution": "torch.distributions.Normal", "x": ["dup_c"],
+         "parameters": {"loc": _num("dupC_pre.loc", 0.0), "scale": _num("dupC_pre.scale", 1.0)}},
+        {"id": "dupT_1", "type": "TransformedParameter", "transform": "torch.distributions.ExpTransform",
+         "x": ["dup_a", "dup_b"]},
+        {"id": "dupT_2", "type": "TransformedParameter", "transform": "torch.distributions.ExpTransform",
+         "x": ["dup_a", "dup_b"]},
+        {"id": "dupT_pre", "type": "TransformedParameter", "transform": "torch.distributions.ExpTransform",
+         "x": ["dup_a"]},
+        {"id": "prior_dupT_1", "type": "Distribution", "distribution": "torch.distributions.Exponential", "x": "dupT_1",
+         "parameters": {"rate": {"id": "prior_dupT_1.rate", "type": "Parameter", "tensor": [1.0, 1.0, 1.0], "dtype": "torch.float64"}}},
+        {"id": "prior_dupT_2", "type": "Distribution", "distribution": "torch.distributions.Exponential", "x": "dupT_2",
+         "parameters": {"rate": {"id": "prior_dupT_2.rate", "type": "Parameter", "tensor": [2.0, 2.0, 2.0], "dtype": "torch.float64"}}},
+        {"id": "prior_dupT_pre", "type": "Distribution", "distribution": "torch.distributions.Exponential", "x": "dupT_pre",
+         "parameters": {"rate": {"id": "prior_dupT_pre.rate", "type": "Parameter", "tensor": [2.0, 2.0], "dtype": "torch.float64"}}},
+        # two ViewParameters with the SAME id, parent and indices (only the constructor allows equal ids)
+        {"id": "dupV_1", "py": "view", "parameter": "dup_c", "indices": {"slice": [0, 1]}, "obj_id": "dupV"},
+        {"id": "dupV_2", "py": "view", "parameter": "dup_c", "indices": {"slice": [0, 1]}, "obj_id": "dupV"},
+        {"id": "prior_dupV_1", "type": "Distribution", "distribution": "torch.distributions.Normal", "x": "dupV_1",
+         "parameters": {"loc": 0.0, "scale": 1.0}},
+        {"id": "prior_dupV_2", "type": "Distribution", "distribution": "torch.distributions.Normal", "x": "dupV_2",
+         "parameters": {"loc": 1.0, "scale": 1.0}},
+        {"id": "joint_dup", "type": "JointDistributionModel",
+         "distributions": ["dupA_pre", "dupA_1", "dupA_2", "dupC_1", "dupC_2", "dupC_pre", "prior_dupT_1",
+                           "prior_dupT_2", "prior_dupT_pre", "prior_dupV_1", "prior_dupV_2"]},
     ] + [
         {"id": "prior_" + v, "type": "Distribution", "distribution": "torch.distributions.Exponential",
          "x": v, "parameters": {"rate": 1.5}} for v in VIEWS
@@ -353,7 +400,7 @@ def build_py(d, dic):
             idx = torch.tensor(ix["long"], dtype=torch.long)
         else:
             idx = torch.tensor(ix["bool"], dtype=torch.bool)
-        return ViewParameter(d["id"], dic[d["parameter"]], idx)
+        return ViewParameter(d.get("obj_id", d["id"]), dic[d["parameter"]], idx)
     raise ValueError(d["py"])
 
 
